@@ -129,9 +129,14 @@ CutCases ==
 HlCases ==
   Concat([q \in 1..Len(SmallIdx) |->
     LET j == SmallIdx[q] body == BodyOf(j) n == Len(body)
-        hls == <<0, 1, Max2(n - 1, 0), n + 1, 16777215>> IN
-    [h \in 1..5 |-> [kind |-> "hl", fn |-> HsFn, len |-> 0,
+        hls == <<0, 1, Max2(n - 1, 0), n + 1, 16777215, n + 65536, n + 256 * 65536, 65536>> IN
+    [h \in 1..8 |-> [kind |-> "hl", fn |-> HsFn, len |-> 0,
                      bytes |-> <<CodeOf(j)>> \o BE24(hls[h]) \o body, val |-> 0, extra |-> 0]]])
+(* a message followed by 2^16 - 1 .. 2^17 - 1 more bytes *)
+LongTailCases ==
+  Concat([q \in 1..3 |->
+    LET j == SmallIdx[q * 3] enc == EncOf(j) IN
+    [t \in 1..Len(LongTails) |-> [kind |-> "enc", fn |-> HsFn, len |-> 0, bytes |-> enc \o [h \in 1..LongTails[t] |-> 171], val |-> j, extra |-> LongTails[t]]]])
 
 (* the property's rejection list *)
 ChWith(sidBytes, ciphBytes, compBytes) ==
@@ -170,7 +175,7 @@ LenientCases == <<
   [kind |-> "lenient", fn |-> HsFn, len |-> 0, bytes |-> <<11, 0, 0, 9, 0, 0, 6, 0, 0, 1, 48, 0, 0>>, val |-> 0, extra |-> 0] >>
 
 ASSUME TLCSet(4, SelectSeq([j \in 1..Len(Vals) |-> j], LAMBDA j : Len(BodyOf(j)) <= (IF Thorough THEN 400 ELSE 120) /\ (Thorough \/ j % 3 = 0)))
-ASSUME TLCSet(1, MsgCases \o BodyCases \o CutCases \o HlCases \o RejectCases \o UnknownTypeCases \o LenientCases)
+ASSUME TLCSet(1, MsgCases \o LongTailCases \o BodyCases \o CutCases \o HlCases \o RejectCases \o UnknownTypeCases \o LenientCases)
 Cases == TLCGet(1)
 V(j) == TLCGet(2)[j]
 N == Len(Cases)
